@@ -155,8 +155,29 @@ def sym(s):
     return SymStr(((True, tuple(s)),))
 
 
+class DecStr:
+    """the decimal text of a 64-bit integer, kept abstract: (negative?, magnitude as 64-bit unsigned). Two decimal texts
+    are equal iff sign and magnitude are equal; no other string operation is defined on it (used where the digits of a
+    full-range number only flow into a comparison, e.g. RFC 7951 strings in a JSON document)"""
+    __slots__ = ('neg', 'mag')
+
+    def __init__(self, neg, mag):
+        self.neg, self.mag = neg, mag
+
+
+def dec_of_bytes(b):
+    """DecStr view of a concrete byte string holding a canonical decimal number, else None"""
+    import re as _re
+    if not _re.fullmatch(rb'-?(0|[1-9][0-9]*)', b) or b == b'-0':
+        return None
+    v = int(b)
+    if abs(v) >= 1 << 64:
+        return None
+    return DecStr(v < 0, z3.BitVecVal(abs(v), 64))
+
+
 def is_str(v):
-    return isinstance(v, (bytes, SymStr, ChoiceStr))
+    return isinstance(v, (bytes, SymStr, ChoiceStr, DecStr))
 
 
 def str_len(s):
@@ -215,6 +236,16 @@ def cells_eq(a, b):
 def str_eq(x, y):
     if isinstance(x, bytes) and isinstance(y, bytes):
         return x == y
+    if isinstance(x, DecStr) or isinstance(y, DecStr):
+        if isinstance(x, bytes):
+            x = dec_of_bytes(x)
+        if isinstance(y, bytes):
+            y = dec_of_bytes(y)
+        if x is None or y is None:
+            return False            # a text that is not a canonical decimal number
+        if not (isinstance(x, DecStr) and isinstance(y, DecStr)):
+            raise Unsupported('comparison of a decimal text with a symbolic string')
+        return sb(And(sb(zbool(x.neg) == zbool(y.neg)), sb(to_bv(x.mag, 64) == to_bv(y.mag, 64))))
     if str_alts(x) is not None and str_alts(y) is not None:
         return choice_bool(choice_map(lambda a, b: a == b, x, y))
     x, y = sym(x), sym(y)
